@@ -600,12 +600,10 @@ func ruleRecordKind(c *Ctx, pkgs ...string) {
 // ---------------------------------------------------------------------------
 // stage-gated-accessor (C20): statesync.Module.BlockHeight panics ("program bug") unless the module is inactive or
 // its MPT stage is complete. A P2P message is not a program bug: every way from the message handler to that accessor
-// must pass, in some function on the way, a branch on the module's stage predicate (NeedBlocks, or a test of
-// syncStage itself) that controls the onward call. The call graph is walked from each command handler; an edge is
+// must pass, in some function on the way, a call site that is unreachable in the world where the accessor panics
+// (IsActive() true and NeedBlocks() false; inside the module: a test of syncStage itself). The call graph is walked from each command handler; an edge is
 // cut when the calling function gates the call site by such a predicate; what is still reachable is reported with
 // its path. One data-gated site is tabled.
-var stageGateValidators = []string{"pkg/network.(StateSync).NeedBlocks", "pkg/core/statesync.(*Module).NeedBlocks", "pkg/core/statesync#syncStage"}
-
 var stageGateTabled = map[string]string{
 	"pkg/network.(*Server).requestBlocksOrHeaders": "the queuer asked for its height is the state-sync module only when NeedBlocks() answered true two statements earlier (the module is selected by data, not by a branch around the call)",
 }
@@ -667,10 +665,22 @@ func ruleStageGatedAccessor(c *Ctx) {
 				for _, b := range tb {
 					tm[b] = true
 				}
-				for _, v := range stageGateValidators {
-					if r := f.CheckGate(f.Entry(), tm, Guard{ID: "stage", Doc: "stage predicate", Alts: [][]string{{v}}, WholeOpen: true}, nil); r.OK {
+				// the world in which the accessor panics: the module is active and does not need blocks yet. A call
+				// site that cannot be reached in that world (it needs NeedBlocks() to be true or IsActive() to be
+				// false) is gated with the right polarity.
+				unsafe := symAssume("pkg/network.(StateSync).NeedBlocks", false, "pkg/core/statesync.(*Module).NeedBlocks", false,
+					"pkg/network.(StateSync).IsActive", true, "pkg/core/statesync.(*Module).IsActive", true)
+				live := f.reach(f.Entry(), nil, unsafe)
+				res = true
+				for b := range tm {
+					if _, ok := live[b]; ok {
+						res = false
+					}
+				}
+				// inside the module itself the stage field is tested directly
+				if !res {
+					if r := f.CheckGate(f.Entry(), tm, Guard{ID: "stage", Doc: "stage field", Alts: [][]string{{"pkg/core/statesync#syncStage"}}, WholeOpen: true}, nil); r.OK {
 						res = true
-						break
 					}
 				}
 			}
